@@ -34,4 +34,20 @@ def storeOKb (s : Store) : Bool :=
       | none => false
   | _ => false
 
+def idsOf (hs : List HData) : List Nat := hs.map (·.hdr.id)
+
+/-- the hashes of all records of the indexed branch files, file by file. -/
+def storeIds (st : Store) (idx : List Nat) : List Nat :=
+  (idx.map fun k => idsOf ((List.lookup k st.branches).getD default).headers).flatten
+
+def nodupb : List Nat → Bool
+  | [] => true
+  | a :: t => !t.contains a && nodupb t
+
+/-- executable test of `StoreUniq` (Proofs/LoadIds.lean): no hash occurs twice in the indexed branch files. -/
+def storeUniqB (s : Store) : Bool :=
+  match s.index with
+  | some idx => nodupb (storeIds s idx)
+  | none => false
+
 end BRV.Repo
